@@ -1,7 +1,7 @@
 use rusty_common::*;
 use rusty_parser::{
     ConditionalBlock, DoLoop, DoLoopConditionKind, DoLoopConditionPosition, Expression,
-    ExpressionPos, ForLoop, HasExpressionType, Statements,
+    ExpressionPos, ExpressionType, ForLoop, HasExpressionType, Statements,
 };
 use rusty_variant::Variant;
 
@@ -160,6 +160,10 @@ impl InstructionGenerator {
         // copy step from D to B
         self.push(Instruction::CopyDToB, pos);
         self.push(Instruction::Plus, pos);
+        // the sum has the type of the wider operand, the counter keeps its own type
+        if let ExpressionType::BuiltIn(q) = counter_var_name.expression_type() {
+            self.push(Instruction::Cast(q), pos);
+        }
         self.store_counter(counter_var_name, pos);
 
         // back to loop
